@@ -283,7 +283,10 @@ func lbvcCheckImage(img *lbvcCrashImage, opts Options) (bad string) {
 	if strings.Contains(img.desc, "workload append") || strings.Contains(img.desc, "workload truncate") {
 		eps := lbvcReadEpochs(l)
 		if n := l.NewestOffset(); n >= 0 && len(eps) > 0 {
-			if _, err := l.Append([]*Message{{MagicByte: 1, Key: []byte("same"), Value: []byte("epoch"), Timestamp: 998, LeaderEpoch: eps[n]}}); err == nil {
+			if got, err := l.Append([]*Message{{MagicByte: 1, Key: []byte("same"), Value: []byte("epoch"), Timestamp: 998, LeaderEpoch: eps[n]}}); err == nil {
+				if len(got) != 1 || got[0] != n+1 {
+					return fmt.Sprintf("%s: append after reopening got offset %v, newest was %d", where, got, n)
+				}
 				eps[n+1] = eps[n]
 				img.completed[n+1] = "same=epoch"
 				for o := l.OldestOffset() + 1; o <= n+1; o++ {
